@@ -168,4 +168,73 @@ theorem filledEdge_of_fwd {bc n a b : Nat} (hn : 3 ≤ n) (h : Bwd bc n b a) : F
     · right; left; omega
   · right; right; omega
 
+/-- the vertices of a ring edge lie on its two circles -/
+theorem ringEdge_bounds {bl bu n a b : Nat} (hn : 1 ≤ n) (h : RingEdge bl bu n a b) :
+    ((bl ≤ a ∧ a < bl + n) ∨ (bu ≤ a ∧ a < bu + n)) ∧ ((bl ≤ b ∧ b < bl + n) ∨ (bu ≤ b ∧ b < bu + n)) := by
+  simp only [RingEdge, Bwd] at h
+  omega
+
+/-! ## a stack of `k` rings on the circles `c, c+nt, …, c+k·nt` (the body of `unit_sphere` / `unit_hemisphere`) -/
+
+def ringStack (c nt k : Nat) : List Tri :=
+  (List.range k).flatMap fun i => ring (c + i * nt) (c + (i + 1) * nt) nt
+
+def StackEdge (c nt k a b : Nat) : Prop := ∃ i, i < k ∧ RingEdge (c + i * nt) (c + (i + 1) * nt) nt a b
+
+/-- a stack of rings is closed up to its lowest circle (backwards) and its highest circle (forwards) -/
+theorem stackEdge_swap {c nt k a b : Nat} (h : StackEdge c nt k a b) :
+    StackEdge c nt k b a ∨ Bwd c nt a b ∨ Bwd (c + k * nt) nt b a := by
+  obtain ⟨i, hi, h⟩ := h
+  rcases ringEdge_swap h with h | h | h
+  · exact Or.inl ⟨i, hi, h⟩
+  · rcases i with _ | j
+    · right; left; simpa using h
+    · left; exact ⟨j, by omega, ringEdge_of_fwd_upper h⟩
+  · by_cases hk : i + 1 < k
+    · left; exact ⟨i + 1, hk, ringEdge_of_bwd_lower h⟩
+    · have : i + 1 = k := by omega
+      subst this; right; right; exact h
+
+theorem stackEdge_of_bwd {c nt k a b : Nat} (hk : 1 ≤ k) (h : Bwd c nt a b) : StackEdge c nt k a b :=
+  ⟨0, hk, ringEdge_of_bwd_lower (by simpa using h)⟩
+
+theorem stackEdge_of_fwd {c nt k a b : Nat} (hk : 1 ≤ k) (h : Bwd (c + k * nt) nt b a) : StackEdge c nt k a b := by
+  obtain ⟨j, rfl⟩ : ∃ j, k = j + 1 := ⟨k - 1, by omega⟩
+  exact ⟨j, by omega, ringEdge_of_fwd_upper h⟩
+
+theorem stackEdge_bounds {c nt k a b : Nat} (hn : 2 ≤ nt) (h : StackEdge c nt k a b) :
+    c ≤ a ∧ a < c + k * nt + nt ∧ c ≤ b ∧ b < c + k * nt + nt ∧ a ≠ b := by
+  obtain ⟨i, hi, h⟩ := h
+  have h1 : (i + 1) * nt ≤ k * nt := Nat.mul_le_mul_right nt hi
+  simp only [Nat.add_mul, Nat.one_mul] at h h1
+  simp only [RingEdge, Bwd] at h
+  omega
+
+/-- the only stack edges inside the lowest circle are that circle's backward edges -/
+theorem stackEdge_low {c nt k a b : Nat} (h : StackEdge c nt k a b) (ha : a < c + nt) (hb : b < c + nt) :
+    Bwd c nt a b := by
+  obtain ⟨i, hi, h⟩ := h
+  rcases i with _ | j
+  · simp only [Nat.zero_mul, Nat.add_zero, Nat.zero_add, Nat.one_mul] at h
+    simp only [RingEdge, Bwd] at h ⊢
+    omega
+  · simp only [Nat.add_mul, Nat.one_mul] at h
+    simp only [RingEdge, Bwd] at h
+    omega
+
+/-- the only stack edges inside the highest circle are that circle's forward edges -/
+theorem stackEdge_high {c nt k a b : Nat} (hn : 1 ≤ nt) (h : StackEdge c nt k a b) (ha : c + k * nt ≤ a) (hb : c + k * nt ≤ b) :
+    Bwd (c + k * nt) nt b a := by
+  obtain ⟨i, hi, h⟩ := h
+  by_cases hk : i + 1 < k
+  · have h1 : (i + 1 + 1) * nt ≤ k * nt := Nat.mul_le_mul_right nt hk
+    simp only [Nat.add_mul, Nat.one_mul] at h h1
+    simp only [RingEdge, Bwd] at h
+    omega
+  · have : k = i + 1 := by omega
+    subst this
+    simp only [Nat.add_mul, Nat.one_mul] at h ha hb ⊢
+    simp only [RingEdge, Bwd] at h ⊢
+    omega
+
 end C19
